@@ -88,8 +88,22 @@ func (s *Schema) generateExample() ([]byte, error) {
 		return nil, err
 	}
 
-	return []byte(g.Generate(1)), nil
+	// The generator doesn't take assertions (ex: `\b`) into account, so its
+	// result may not match the pattern. Try a few more times in that case.
+	re, err := regexp.Compile(s.pattern)
+	if err != nil {
+		return nil, err
+	}
+	example := g.Generate(1)
+	for i := 0; i < exampleAttempts && !re.MatchString(example); i++ {
+		example = g.Generate(1)
+	}
+	return []byte(example), nil
 }
+
+// exampleAttempts how many times we try to generate an example which matches
+// the pattern.
+const exampleAttempts = 100
 
 func (*Schema) AddType(string, jschema.Schema) error {
 	// Regex doesn't use any user types at all.
